@@ -1,9 +1,9 @@
 CHECK = {
-    "suites": [suite("stream", "c13", 250, 1500, stdin=True, args=["-suite", "stream"], timeout={"quick": 600, "thorough": 2400}),
-               suite("trees", "c13", 200, 2500, stdin=True, args=["-suite", "trees"], timeout={"quick": 600, "thorough": 2400})],
+    "suites": [suite("stream", "c13", 250, 1200, stdin=True, args=["-suite", "stream"], timeout={"quick": 600, "thorough": 2400}),
+               suite("trees", "c13", 200, 2000, stdin=True, args=["-suite", "trees"], timeout={"quick": 600, "thorough": 2400})],
     "gen": [{"pkg": "extract_c13", "out": "lean/ClusterVerif/Gen/C13.lean"}],
     "lean_sources": ["ClusterVerif/Model/Pin.lean", "ClusterVerif/Gen/C13.lean", "ClusterVerif/Model/C13.lean",
-                     "ClusterVerif/Spec/C13.lean", "ClusterVerif/Lemmas/C13.lean"],
+                     "ClusterVerif/Spec/C13.lean", "ClusterVerif/Lemmas/C13.lean", "ClusterVerif/Lemmas/C13Log.lean"],
     "rule": "stream: synthetic raw-block streams (1-6 runs of equal-sized blocks, repeats, early/foreign roots; 5983..11969 four-byte blocks in the "
             "thorough tier) into single.New / sharding.New with shard limits at, one under and one over sums of block runs, 1-4 scripted allocations "
             "over 5 destinations, BlockPut faults (IPFS / RPC error, from the j-th put of a destination), BlockAllocate and Pin failures; "
@@ -16,7 +16,7 @@ CHECK = {
                      "a recording wrapper around the ClusterDAGService under test (Add stream, Finalize); verif_export.go (VerifNewCluster) for Cluster.AddFile",
                      "content checks computed in Go: go-merkledag / go-unixfs readers over the delivered blocks (hash-verified), a reference importer "
                      "assembled from go-unixfs chunker / balanced / trickle / basic-directory primitives, go-car for CAR inputs",
-                     "Obs.view (the decoder of implementation output into the Spec's view) agrees with the model's structural view: checked per case, not proved"],
+                     "Obs.view (the decoder of implementation output into the Spec's view) agrees with the model's structural view: proved for the accepted pins (decoded_pins), checked per case for shard contents, depths and destinations"],
     "assumptions": ["PARTIAL: closure under links, byte-exact read-back and the two root equalities are validated on generated inputs, not proved (no Lean model of "
                     "chunking / hashing / protobuf)",
                     "the importer reaches Finalize only when no Add failed (CallerStops); refuted for go-unixfs balanced.Layout: known finding K13a",
